@@ -869,3 +869,46 @@ type SkewOld struct {
 	U uint64
 	V uint
 }
+
+// ---- Round 9: two Go types that go by ONE class name (two entries of a name map pointing at one class,
+// or equally named types of two packages). The encoder may keep nothing by class name alone: the
+// definitions, field lists and field kinds of the two differ. Not part of the random zoo; used by the
+// directed cases of C02, C07, C11 and C13.
+type AcctV1 struct {
+	ID   int32
+	Name string
+	Note string
+}
+
+type AcctV2 struct {
+	Name string
+	ID   int64
+	Tags []string
+}
+
+// AcctBad has a channel where AcctV1 has a string.
+type AcctBad struct {
+	ID   int32
+	Name chan string
+	Note string
+}
+
+// IntFieldsWide: the field names of IntFields, every field 64 bits wide.
+type IntFieldsWide struct {
+	I8  int64
+	I16 int64
+	I32 int64
+	I   int64
+	I64 int64
+	U8  uint64
+	U16 uint64
+	U32 uint64
+	U   uint64
+	U64 uint64
+}
+
+// OneClassName is the name map under which the types above share their class names.
+func OneClassName() map[string]string {
+	return map[string]string{"AcctV1": "com.bank.Account", "AcctV2": "com.bank.Account", "AcctBad": "com.bank.Account",
+		"IntFields": "com.bank.Ints", "IntFieldsWide": "com.bank.Ints"}
+}
